@@ -770,6 +770,14 @@ class Ratio:
         return IntZ(-((-s.num) / s.den))
 
 
+def _norm_bytes(items):
+    """All-concrete results collapse to real bytes (so that dict lookups, str methods etc. keep working)."""
+    items = list(items)
+    if all(isinstance(i, builtins.int) for i in items):
+        return builtins.bytes(items)
+    return SymBytes(items)
+
+
 class SymBytes:
     """Concrete length; elements are Python ints or SymInt (0..255)."""
 
@@ -786,7 +794,7 @@ class SymBytes:
                 start = EX.realize(start.e)
             if isinstance(stop, SymInt):
                 stop = EX.realize(stop.e)
-            return SymBytes(self.items[slice(start, stop, step)])
+            return _norm_bytes(self.items[slice(start, stop, step)])
         if isinstance(i, SymInt):
             i = EX.realize(i.e)
         return self.items[i]
@@ -899,9 +907,13 @@ class SymBytes:
         return self.find(x) >= 0
 
     def hex(self):
+        if all(isinstance(i, builtins.int) for i in self.items):
+            return builtins.bytes(self.items).hex()
         return SymHex(self)
 
     def decode(self, *a):
+        if all(isinstance(i, builtins.int) for i in self.items):
+            return builtins.bytes(self.items).decode(*a)
         # ASCII only: a byte >= 0x80 would make real utf-8 decoding data dependent
         for it in self.items:
             if isinstance(it, SymInt):
